@@ -106,7 +106,8 @@ Attribution ==
 TraceMismatch ==
   /\ phase = "run" /\ ~done /\ ~ENABLED TraceStep
   /\ Emit(<<V(Attribution, "lockstep:" \o Trace[l].e, call.id, l,
-              [got |-> Got(l), node |-> Top.node.k, pc |-> Top.pc, path |-> PathStr(Top.ip)])>>)
+              [got |-> Got(l), node |-> Top.node.k, pc |-> Top.pc, path |-> PathStr(Top.ip)])>>
+          \o (IF call.pair \in {"c17", "c17s"} THEN <<V("C17", "lockstep:" \o Trace[l].e, call.id, l, [got |-> Got(l), node |-> Top.node.k, pc |-> Top.pc, path |-> PathStr(Top.ip)])>> ELSE <<>>))
   /\ l' = NextRet(l) /\ phase' = "ret" /\ locked' = FALSE
   /\ UNCHANGED <<vars, call, prev>>
 
@@ -121,6 +122,29 @@ OnlyReq(s) == SelectSeq(s, LAMBDA i : i.code \in ReqCodes)
 
 \* every issue path the schema/input can produce (C10: an issue is addressed by such a path)
 Differs(f, g, paths) == {q \in paths : q \notin DOMAIN f \/ q \notin DOMAIN g \/ f[q] # g[q]}
+
+\* C17: builder chains (spec/ZogChain.tla). The case's schema is the DECLARATIVE reading of the chain; the harness built the
+\* real schema by executing the chain on the builder API. Besides everything else, each issue must carry the message of
+\* exactly the test (or Required call) it belongs to: a custom one iff one was passed to that call.
+MsgClass(m) == IF m \in {"mm", "rm"} THEN m ELSE IF m = "" THEN "EMPTY" ELSE "default"
+TestCM(node, v) ==
+  LET R[i \in 0..Len(node.tests)] ==
+        IF i = 0 THEN <<>>
+        ELSE IF Pass(node.tests[i], v) THEN R[i - 1]
+        ELSE Append(R[i - 1], [code |-> node.tests[i].code, msg |-> IF node.tests[i].msg # "" THEN node.tests[i].msg ELSE "default"])
+  IN R[Len(node.tests)]
+C17Want(c) ==
+  IF c.schema.k # "prim" \/ "reqmsg" \notin DOMAIN c.schema THEN <<>> ELSE
+  LET n == c.schema
+      absent == IF c.mode = "parse" THEN ParseAbsent(c.input) ELSE InitDestOf(c)[<<>>] = 0
+      v == IF c.mode = "parse" THEN c.input.v ELSE InitDestOf(c)[<<>>]
+  IN IF absent THEN
+          IF n.def # None THEN (IF n.catch # None THEN <<>> ELSE TestCM(n, n.def))
+          ELSE IF ~n.req \/ n.catch # None THEN <<>>
+          ELSE <<[code |-> "required", msg |-> IF n.reqmsg # "" THEN n.reqmsg ELSE "default"]>>
+     ELSE IF c.mode = "parse" /\ ~Coercible(n, c.input) THEN (IF n.catch # None THEN <<>> ELSE <<[code |-> "coerce", msg |-> "default"]>>)
+     ELSE IF n.catch # None THEN <<>> ELSE TestCM(n, v)
+C17Got(R) == [i \in DOMAIN R.issues |-> [code |-> R.issues[i].code, msg |-> MsgClass(R.issues[i].msg)]]
 
 RetVerdicts(R, c, lineNo, tag) ==
   LET ri     == Proj(R.issues)
@@ -164,13 +188,23 @@ RetVerdicts(R, c, lineNo, tag) ==
                    ~(Len(R.first) = 1 /\ R.first[1].code = R.firstev.a /\ R.first[1].path = R.firstev.b),
          v |-> mk("C10", "first", [first |-> R.first, firstev |-> R.firstev])],
         [bad |-> ok /\ R.ismap /\ R.issues = <<>> /\ R.first # <<>>, v |-> mk("C10", "first-without-issue", R.first)],
-        [bad |-> ok /\ ~R.sanok, v |-> mk("C10", "sanitize", R.issues)]
+        [bad |-> ok /\ ~R.sanok, v |-> mk("C10", "sanitize", R.issues)],
+        \* C11: every issue names the type of the node it belongs to and has a message
+        [bad |-> ok /\ \E k \in DOMAIN ri : /\ \E w \in RangeOf(ref) : w.path = ri[k].path /\ w.code = ri[k].code /\ w.ty # ri[k].ty
+                                               /\ ~\E w2 \in RangeOf(ref) : w2.path = ri[k].path /\ w2.code = ri[k].code /\ w2.ty = ri[k].ty,
+         v |-> mk("C11", "issue-type", [got |-> ri, want |-> ref])],
+        [bad |-> ok /\ \E k \in DOMAIN R.issues : R.issues[k].msg = "" \/ R.issues[k].ph,
+         v |-> mk("C11", "empty-or-unresolved-message", R.issues)],
+        [bad |-> ok /\ tag = "c17" /\ BagOf(C17Got(R)) # BagOf(C17Want(c)),
+         v |-> mk("C17", "code-or-message", [got |-> C17Got(R), want |-> C17Want(c)])],
+        [bad |-> ok /\ tag \in {"c17", "c17s"} /\ (BagOf(NonPT(ri)) # BagOf(ref) \/ (R.issues = <<>> /\ rd # refd)),
+         v |-> mk("C17", "behaviour", [got |-> ri, want |-> ref, dest |-> Differs(rd, refd, DOMAIN rd \cup DOMAIN refd)])]
       >>
   IN SelectSeq(checks, LAMBDA x : x.bad)
 
 \* runs of the same case under different visit orders must agree (C09)
 GroupVerdicts(R, lineNo) ==
-  IF /\ prev.grp = call.grp /\ call.pair = prev.pair /\ call.pair \in {"", "c04"}
+  IF /\ prev.grp = call.grp /\ call.pair = prev.pair /\ call.pair \in {"", "c04", "c17s"}
      /\ (BagOf(Proj(R.issues)) # BagOf(Proj(prev.issues)) \/ R.dest # prev.dest \/ R.nilres # prev.nilres)
      /\ \A k1 \in DOMAIN R.issues : ~IsPTIssue(R.issues[k1])
      /\ \A k2 \in DOMAIN prev.issues : ~IsPTIssue(prev.issues[k2])
